@@ -516,6 +516,12 @@ const C15_CONSTRUCTS: &[&str] = &[
   "subscribe_on+interval",
   "interval+delay",
   "interval-merge-interval",
+  // cold sources that deliver everything (terminal included) synchronously inside subscribe
+  "debounce-cold",
+  "timeout-cold",
+  "observe_on-cold",
+  "delay-cold",
+  "sample-cold-by-interval",
 ];
 const C15_ENDINGS: &[&str] = &["terminal", "unsubscribe", "take", "first", "take_until-timer", "amb-timer", "retry", "unsubscribe-early", "unsubscribe-probes"];
 
@@ -610,6 +616,11 @@ impl Family for C15 {
           "sample-by-interval" => timed_src().sample(observables::interval(ms(d), sched())),
           "subscribe_on+interval" => iv().subscribe_on(sched()),
           "interval+delay" => iv().delay(ms(7)),
+          "debounce-cold" => cold_source(vec![script.clone()], slog.clone(), None, true).debounce(ms(d), sched()),
+          "timeout-cold" => cold_source(vec![script.clone()], slog.clone(), None, true).timeout(ms(d), sched()),
+          "observe_on-cold" => cold_source(vec![script.clone()], slog.clone(), None, true).observe_on(sched()),
+          "delay-cold" => cold_source(vec![script.clone()], slog.clone(), None, true).delay(ms(d)),
+          "sample-cold-by-interval" => cold_source(vec![script.clone()], slog.clone(), None, true).sample(observables::interval(ms(d), sched())),
           _ => iv().merge(&[observables::interval(ms(d + 30), sched()).map(|x| Val::Int(1000 + x as i64))]),
         };
         let endless = construct2.starts_with("interval") || construct2 == "timer+flat_map-interval" || construct2 == "subscribe_on+interval";
